@@ -22,6 +22,7 @@ class RepeatOperation(Node):
         self.start: Optional[Node] = None
         self.end: Optional[Node] = None
         self.varname: str = ''
+        self.variable: Optional[Node] = None
         self.sign: str = ''
 
     def generate_lingo(self, indentation: int) -> str: 
@@ -53,16 +54,22 @@ class RepeatOperation(Node):
         if not str_cond.startswith('('):
             str_cond = vsprintf("(%s)", str_cond)
 
+        # The loop variable as the rest of the code refers to it (a global
+        # keeps its '_global.')
+        var_js: str = self.varname
+        if self.variable is not None:
+            var_js = self.variable.generate_js(0, factory_method)
+
         if self.type == 'while':
             code = vsprintf("while %s {\n", str_cond)
         elif self.type == 'for':
-            code = vsprintf("for(%s = %s; %s; %s%s) {\n", self.varname,
+            code = vsprintf("for(%s = %s; %s; %s%s) {\n", var_js,
                     cast(Node, self.start).generate_js(0, factory_method),
                     str_cond[1:-1],
-                    self.varname,
+                    var_js,
                     '++' if self.sign == '+' else '--')
         else:
-            code = vsprintf("for(%s of %s) {\n", self.varname,
+            code = vsprintf("for(%s of %s) {\n", var_js,
                         cast(Node, self.start).generate_js(0, factory_method))
         
         for st in self.statements_list:
